@@ -149,6 +149,7 @@ func propC25(e *Env) {
 	// one run in three also tails a stream socket (in-memory transport): several connections share one log name
 	snet := installSimNet(e)
 	resetFifoGates()
+	enableShortReads(e)
 	sockSource := ""
 	patterns := []string{filepath.Join(logs, "*.log")}
 	if e.Choose("gen", 3) == 0 {
